@@ -69,6 +69,10 @@ def clampStep (max v : Nat) (inc dec reset : Bool) (rv : Nat) : Nat :=
     let t : Int := (v : Int) + (if inc then 1 else 0) - (if dec then 1 else 0)
     if t < 0 then 0 else if t > max then max else t.toNat
 
+/-- value of the saturating counter after a history of (inc, dec, reset) cycles -/
+def clampRun (mx rv v : Nat) (ops : List (Bool × Bool × Bool)) : Nat :=
+  ops.foldl (fun v o => clampStep mx v o.1 o.2.1 o.2.2 rv) v
+
 /-! ### GF(2)[x], polynomials as `Nat` (bit `i` = coefficient of `x^i`) -/
 
 /-- carry-less product `q · p` -/
